@@ -3,6 +3,7 @@ package checks
 import (
 	"bytes"
 	"fmt"
+	"os"
 
 	"github.com/lidofinance/dc4bc/fsm/types/requests"
 
@@ -56,6 +57,9 @@ func c01(tier string, args []string) int {
 	if tier != "thorough" {
 		// minority and majority thresholds for n=5 with one batch shape
 		cfgs = append(cfgs, ntPair{5, 2}, ntPair{5, 4})
+	}
+	if os.Getenv("VERIF_PART") == "two-rounds" { // development aid: only the two-round part
+		cfgs = nil
 	}
 	for _, nt := range cfgs {
 		if r.TimeUp() {
@@ -172,6 +176,8 @@ func c01(tier string, args []string) int {
 		r.Add("airgapped_executions", int(sw.Ctx.RealAnswers))
 		sw.Close()
 	}
+	// two rounds with different participant sets on the same nodes sign the same payload (c01b.go)
+	r.Set("two_round_histories", c01TwoRounds(r))
 	r.Set("states", totalStates)
 	r.Set("transitions", totalTrans)
 	r.Set("traces_validated_against_impl", totalTerm)
